@@ -27,6 +27,7 @@ type c12client struct {
 	open      bool
 	connected bool
 	login     string
+	refuse    bool // the user's "refuse private chat" preference (a new session starts without it)
 }
 
 type c12chat struct {
@@ -139,6 +140,7 @@ func c12prop(ev *evid.Rec) func(rt *rapid.T) {
 				}
 				c.id = nextID
 				c.connected = true
+				c.refuse = false
 			}
 			connect(clients[0])
 			connect(clients[1])
@@ -319,13 +321,32 @@ func c12prop(ev *evid.Rec) func(rt *rapid.T) {
 						if len(id) != 4 {
 							fail("invite-new-chat reply without chat id")
 						}
-						ch := &c12chat{id: string(id), members: map[int]bool{c.idx: true}, invited: map[int]bool{t.idx: true}}
+						if string(id) == "\x00\x00\x00\x00" {
+							fail("invite-new-chat by client %d (target refuses private chat: %v) was answered with chat id 0, which is the public chat", c.idx, t.refuse)
+						}
+						ch := &c12chat{id: string(id), members: map[int]bool{c.idx: true}, invited: map[int]bool{}}
 						chats = append(chats, ch)
-						exp[t.idx] = append(exp[t.idx], fmt.Sprintf("113 chat=%x from=%x name=%q", ch.id, hlref.BE16(c.id), c.name))
+						if !t.refuse {
+							// (a target that refuses private chat is not invited: the inviter sits in the new chat alone)
+							ch.invited[t.idx] = true
+							exp[t.idx] = append(exp[t.idx], fmt.Sprintf("113 chat=%x from=%x name=%q", ch.id, hlref.BE16(c.id), c.name))
+						}
 					} else if r == nil || r.Err == 0 {
 						fail("invite-new-chat by client %d without open-chat privilege not refused", c.idx)
 					}
 					verify("invite new chat", exp)
+				},
+				"setRefuse": func(rt *rapid.T) {
+					// the user switches the "refuse private chat" preference on or off (name and icon stay what they are)
+					c := pick("who", isConn)
+					c.refuse = rapid.Bool().Draw(rt, "refuse")
+					history = append(history, fmt.Sprintf("set-refuse %d %v", c.idx, c.refuse))
+					opts := 0
+					if c.refuse {
+						opts = 2
+					}
+					c.conn.Request(hlref.TranSetClientUserInfo, fld(hlref.FUserName, c.name), fld(hlref.FUserIconID, hlref.BE16(c.idx)), fld(hlref.FOptions, hlref.BE16(opts)))
+					verify("set refuse-private-chat", nil)
 				},
 				"inviteToChat": func(rt *rapid.T) {
 					ch := pickChat("chat", func(ch *c12chat) bool { return true })
